@@ -180,7 +180,7 @@ pub fn c12_walk(w: &WalkCase, st: &mut Stats) -> Result<bool, Failure> {
 
 pub fn c12(quick: bool, seed: u64) -> Outcome {
     let mut o = Outcome::new(
-        "complete generator: walk with the smallest increment (1 count per tick) over adjacent phase-counter pairs (quick: the 300000 counts either side of the cycle wrap plus 256 seed-chosen complete table cells; thorough: all 2^24 pairs including the wrap pair) + proptest walks (start, increment, length) with increments from {2,3,7,16,100,...,2^23+-1,2^24-1} and log-uniform + proptest histories; per pair |dSine| <= 2pi*1.002*d + 2ulp and |dTriangle| <= 4d with d the actual circular phase step (hook). non-trivial = pair straddling a table-cell edge, the wrap pair, or inside the last two cells; distinct_nontrivial counts such pairs of the increment-1 walk (distinct by construction) plus distinct generated walks/histories containing one",
+        "complete generator: walk with the smallest increment (1 count per tick) over adjacent phase-counter pairs (quick: the 300000 counts either side of the cycle wrap plus 256 seed-chosen complete table cells; thorough: all 2^24 pairs including the wrap pair) + proptest walks (start, increment, length) with increments from {2,3,7,16,100,...,2^23+-1,2^24-1} and log-uniform + proptest histories (the value before a tick is both re-read and taken as read after the previous tick, so pairs also straddle set_frequency calls); per pair |dSine| <= 2pi*1.002*d + 2ulp and |dTriangle| <= 4d with d the actual circular phase step (hook). non-trivial = pair straddling a table-cell edge, the wrap pair, or inside the last two cells; distinct_nontrivial counts such pairs of the increment-1 walk (distinct by construction) plus distinct generated walks/histories containing one",
     );
     o.assumptions.push("the hook Lfo::verif_phase_bits() returns the oscillator's phase counter (24-bit cycle)".into());
     let n = TWO24 as u64;
